@@ -164,3 +164,26 @@ Example ex_reject_use_after_move :
      (BCons (SLet None (ECtor 0 ENone) V V)
      (BCons (SDestroy (EMove 0)) (BCons (SDestroy (EMove 0)) BNil)))]) = None.
 Proof. vm_compute. reflexivity. Qed.
+
+(* guard: the else block must definitely exit. `while c { guard let x = o else { if false { break } } }`
+   - the shape a checker that only tests "maybe jumped" would accept - is rejected; with `else { break }`
+   it is accepted, and when the binding fails the loop is left *)
+Definition guard_prog (els : block) : program :=
+  mkProg [] [mkFun [TBool; TOpt TInt8] TInt8
+     (BCons (SWhile (EVar 0)
+               (BCons (SGuardLet (EVar 1) V els (BCons (SReturn (Some (EVar 2)) V V) BNil)) BNil))
+     (BCons (SReturn (Some (ELit8 7)) V V) BNil))].
+
+Example ex_reject_guard_else_falls_through :
+  check_program (guard_prog (BCons (SIf (EBool false) (BCons SBreak BNil) BNil) BNil)) = None /\
+  check_program (guard_prog BNil) = None.
+Proof. vm_compute. split; reflexivity. Qed.
+
+Example ex_accept_guard_else_break :
+  exists p', check_program (guard_prog (BCons SBreak BNil)) = Some p' /\
+             run true 100 p' [VBool true; VNil] = Ok (VI8 7) /\
+             run true 100 p' [VBool true; VSome (VI8 3)] = Ok (VI8 3).
+Proof.
+  destruct (check_program (guard_prog (BCons SBreak BNil))) as [p'|] eqn:E; [|vm_compute in E; discriminate].
+  exists p'. vm_compute in E. inversion E; subst. vm_compute. repeat split; reflexivity.
+Qed.
